@@ -7,8 +7,9 @@ namespace Conc
 
 def holdsCore : Pc → Bool
   | .a1 | .a2 _ | .a3 _ | .a4 _ | .a6 _ | .a7 _ _ | .a8 _ => true
-  | .r1 _ | .rErr | .rL _ | .rC _ _ _ | .rP _ _ | .s1 _ _ | .s2 _ _ | .s3 _ _ | .o1 => true
+  | .r1 _ | .rErr | .rL _ | .rC _ _ _ | .rP _ _ | .s1 _ _ | .s2 _ _ | .s3 _ _ | .o1 | .o2 => true
   | .k1 _ _ | .k2 _ | .k3 _ => true
+  | .c1 | .cL _ | .cH _ _ => true
   | _ => false
 
 /-- the handler locks a program counter holds (a forking thread holds several) -/
@@ -16,6 +17,7 @@ def heldH : Pc → List Hid
   | .s1 h _ | .s2 h _ | .s3 h _ => [h]
   | .e1 _ h _ _ | .e2 _ h _ _ _ | .e3 _ h _ _ | .e4 _ h _ _ => [h]
   | .k1 _ got | .k2 got | .k3 got => got
+  | .cH h _ => [h]
   | _ => []
 
 structure LockInv (s : St) : Prop where
